@@ -25,8 +25,8 @@ from pathlib import Path
 ROOT = Path(__file__).resolve().parent.parent
 COQ = ROOT / "coq"
 BUILD = ROOT / "build"
-REPLAYS = ROOT / "replays"
-EVIDENCE = ROOT / "evidence"
+REPLAYS = Path(os.environ.get("VERIF_REPLAY_DIR", ROOT / "replays"))
+EVIDENCE = Path(os.environ.get("VERIF_EVIDENCE_DIR", ROOT / "evidence"))
 REPO = Path(os.environ.get("VERIF_REPO", "/repo"))
 PY = "/venv/bin/python"
 GUARD = "ACCELFORGE_VERIF"
@@ -455,7 +455,9 @@ class Check:
         if extra:
             cov.update(extra)
         ev = {
-            "property_id": self.pid, "tier": self.tier, "seed": self.seed, "level": "proof",
+            "property_id": self.pid, "tier": self.tier, "seed": self.seed,
+            # a run whose theorems do not all check is not proof-level evidence (it also reports a violation)
+            "level": "proof" if thms and len(closed) == len(thms) else "exploration",
             "coverage": cov, "assumptions": self.assumptions + self.notes,
             "wall_s": round(time.time() - self.t0, 2), "violations": len(self.violations),
             "known_findings_hit": self.known_hits,
